@@ -541,8 +541,83 @@ def mon_unlock_after_throw(case, lines):
     return None
 
 
+def _shared_type_op(cfg, op):
+    """the operation takes the mutex through shared_locker (a shared-type lock object)"""
+    return op[0] in ACQ_S or op[0] == READ or (op[0] == LOAD and cfg[0] == ORDERED)
+
+
+def mon_rw_overlap(case, lines):
+    """(C02) a reader is inside the object while a writer is (either order)"""
+    if not locking(case['cfg']) or uses_unowned(case):
+        return None
+    for i, l in enumerate(lines):
+        if len(l) == 5 and l[1] == K['FAULT'] and l[3] in (1, 2, 4):
+            return 'thread %d: reader / writer overlap (payload fault %d) at trace line %d' % (l[0], l[3], i)
+    opened = {}
+    for i, l in enumerate(lines):
+        if len(l) != 5 or l[0] < 0:
+            continue
+        t, k, o, v, m = l
+        if k in (K['RD_BEGIN'], K['WR_BEGIN']):
+            w = k == K['WR_BEGIN']
+            for (t2, o2), w2 in opened.items():
+                if o2 == o and t2 != t and w != w2:
+                    return 'threads %d and %d: a read window and a write window of object %d are open together (trace line %d)' % (t2, t, o, i)
+            opened[(t, o)] = w
+        elif k in (K['RD_END'], K['WR_END']):
+            opened.pop((t, o), None)
+    return None
+
+
+def mon_reader_blocked(case, lines):
+    """(C02) shared-capable mutex: a shared acquisition fails, or stays blocked for ever, although every current
+    holder of the mutex got it through a shared acquisition (a reader blocked merely by other readers)"""
+    cfg = case['cfg']
+    if not locking(cfg) or cfg[1] not in (SHMUTEX, SHTIMED):
+        return None
+    held = {}      # thread -> list of 'S' / 'X': the kind of OPERATION that took each lock the thread holds
+    cur = {}       # thread -> [op, finished, saw a lock event]
+    idx = {}
+    for i, l in enumerate(lines):
+        if len(l) != 5 or l[0] < 0:
+            continue
+        t, k, ob, v, m = l
+        if k == K['INVOKE']:
+            n = idx.get(t, 0)
+            idx[t] = n + 1
+            prog = case['progs'][t] if t < len(case['progs']) else []
+            cur[t] = [prog[n] if n < len(prog) else [v], False, False]
+            continue
+        if t not in cur:
+            continue
+        if k in (K['RET'], K['CATCH']):
+            cur[t][1] = True
+            continue
+        op = cur[t][0]
+        kind = 'S' if _shared_type_op(cfg, op) else 'X'
+        if k in LOCK_KINDS:
+            cur[t][2] = True
+            ok = True if k in (K['LOCK'], K['LOCK_SH']) else bool(v)
+            if ok:
+                held.setdefault(t, []).append(kind)
+            elif kind == 'S' and 'X' not in [x for xs in held.values() for x in xs]:
+                return 'thread %d: %s failed although only readers hold the mutex (trace line %d)' % (t, op, i)
+        elif k in (K['UNLOCK'], K['UNLOCK_SH']):
+            xs = held.get(t, [])
+            if len(set(xs)) > 1:
+                return None     # mixed holdings of one thread: which one was released is not observable
+            if xs:
+                xs.pop()
+    if _verdict(lines) == 1 and 'X' not in [x for xs in held.values() for x in xs]:
+        for t, (op, finished, locked) in cur.items():
+            if not finished and not locked and _shared_type_op(cfg, op) and op[0] not in TRYING and available(cfg, op[0]):
+                return 'thread %d: %s is blocked for ever although only readers hold the mutex' % (t, op)
+    return None
+
+
 MONITORS = {
     'window_fault': mon_window_fault, 'lost_update': mon_lost_update, 'handle_truth': mon_handle_truth,
     'try_blocks': mon_try_blocks, 'release_balance': mon_release_balance, 'deadlock': mon_deadlock,
     'disabled_mode': mon_disabled_mode, 'unlock_after_throw': mon_unlock_after_throw,
+    'rw_overlap': mon_rw_overlap, 'reader_blocked': mon_reader_blocked,
 }
